@@ -997,7 +997,7 @@ func init() {
 	})
 	register(&PropDef{
 		ID: "C05", Level: "exploration", Engine: "fedsim",
-		Rule: "case = history of 1-3 (thorough: 1-8) posts, one after another, to one or two outboxes of a server (bare objects, Creates with 1-3 embedded objects and overlapping recipient/attribution sets, nine other activity types; client POST or Send; Social / Federating / both); every third case is additionally swept with every single seam-call fault. Oracles: wrap + normalisation model (set semantics) against the values given to Database.Create, per-request ordering NewID < object Create < activity Create < SetOutbox(front, once) < first Transport call, Location = id, outbox history, and 'nothing delivered after a failed persistence step'.",
+		Rule: "case = history of 1-3 (thorough: 1-8) posts, one after another, to one or two outboxes of a server (bare objects, Creates with 1-3 embedded objects and overlapping recipient/attribution sets, nine other activity types; client POST or Send; Social / Federating / both); every third case is additionally swept with every single seam-call fault, every third crashes the server at a random step of the history (what reached the wire must be stored and listed in what survives); the transport is the stub (sync or queued) or, in 1/6 of the cases, the real HttpSigTransport. Oracles: wrap + normalisation model (set semantics) against the values given to Database.Create, per-request ordering NewID < object Create < activity Create < SetOutbox(front, once) < first Transport call, Location = id, outbox history, and 'nothing delivered after a failed persistence step'.",
 		QuickCases: 150, QuickBudgetS: 60, ThoroughBudgetS: 600,
 		Drive: func(c *DriveCtx, r *Rng, k int) {
 			if k%3 == 0 {
